@@ -264,6 +264,7 @@ pub fn specs(tier: &str, _prop: &str) -> Vec<ExpSpec> {
         c2.name = format!("{}-pre", c2.name);
         v.push(ExpSpec::new(c2, alpha::mixed(cs), 2).with_prefix(crate::c03::grid_prefix(cs)));
     }
+    v.extend(trunc0_reopen_specs(th));
     v.extend(garbage_specs(th));
     v.extend(fragmented_dir_specs(th));
     v.extend(full_dir_specs(th));
@@ -481,6 +482,43 @@ pub fn fragmented_dir_specs(th: bool) -> Vec<ExpSpec> {
             Op::Remount,
         ];
         v.push(ExpSpec::new(c, alphabet, if th { 4 } else { 3 }).with_prefix(prefix));
+    }
+    v
+}
+
+/// a file that was cut to nothing and closed; the volume is mounted again, so the allocator starts at
+/// the bottom and hands the clusters the file used to own to the next object. Whoever reopens the file then must not
+/// find a first cluster in its entry.
+pub fn trunc0_reopen_specs(th: bool) -> Vec<ExpSpec> {
+    use harness::sess::{DirRef, SeekSpec};
+    let r = DirRef::Root;
+    let s = |x: &str| x.to_string();
+    let mut v = Vec::new();
+    for ft in [FatType::Fat12, FatType::Fat16, FatType::Fat32] {
+        let mut c = vol::tiny_with(ft, 8, 16);
+        c.name = format!("{}-trunc0-reopen", c.name);
+        let prefix = vec![
+            Op::CreateFile { base: r, path: s("a"), keep: Some(0) },
+            Op::WriteAll { h: 0, len: 1025 },
+            Op::Seek { h: 0, pos: SeekSpec::Start(0) },
+            Op::Truncate { h: 0 },
+            Op::DropFile { h: 0 },
+            Op::Remount,
+        ];
+        let alphabet = vec![
+            Op::CreateFile { base: r, path: s("b"), keep: Some(1) },
+            Op::WriteAll { h: 1, len: 513 },
+            Op::CreateDir { base: r, path: s("d"), keep: None },
+            Op::OpenFile { base: r, path: s("a"), keep: Some(0) },
+            Op::Write { h: 0, len: 1 },
+            Op::WriteAll { h: 0, len: 513 },
+            Op::Flush { h: 0 },
+            Op::DropFile { h: 0 },
+            Op::DropFile { h: 1 },
+            Op::List { base: r, path: s("") },
+            Op::Remount,
+        ];
+        v.push(ExpSpec::new(c, alphabet, if th { 5 } else { 4 }).with_prefix(prefix));
     }
     v
 }
